@@ -167,6 +167,7 @@ func panicSite(stderr string) (site string, gldapFrame bool) {
 	}
 	lines := strings.Split(stderr[i:], "\n")
 	site = strings.TrimSpace(lines[0])
+	headers := 0
 	for k, l := range lines {
 		if strings.HasPrefix(l, "github.com/jimlambrt/gldap.") || strings.HasPrefix(l, "github.com/jimlambrt/gldap/") {
 			gldapFrame = true
@@ -175,8 +176,12 @@ func panicSite(stderr string) (site string, gldapFrame bool) {
 			}
 			break
 		}
-		if strings.HasPrefix(l, "goroutine ") && k > 2 {
-			break
+		if strings.HasPrefix(l, "goroutine ") {
+			// only the stack of the panicking goroutine (the first one printed; a "[signal ...]" line may precede its header)
+			headers++
+			if headers > 1 {
+				break
+			}
 		}
 	}
 	return site, gldapFrame
